@@ -28,20 +28,24 @@ func sortNaturalFilter(array []any, key any) any {
 	case key != nil:
 		sort.Sort(keySortable{result, func(m any) string {
 			rv := reflect.ValueOf(m)
-			if rv.Kind() != reflect.Map {
+			kv := reflect.ValueOf(key)
+			if rv.Kind() != reflect.Map || !kv.Type().AssignableTo(rv.Type().Key()) {
 				return ""
 			}
-			ev := rv.MapIndex(reflect.ValueOf(key))
-			if ev.CanInterface() {
+			ev := rv.MapIndex(kv)
+			if ev.IsValid() && ev.CanInterface() {
 				if s, ok := ev.Interface().(string); ok {
 					return strings.ToLower(s)
 				}
 			}
 			return ""
 		}})
-	case reflect.TypeOf(array[0]).Kind() == reflect.String:
+	case array[0] != nil && reflect.TypeOf(array[0]).Kind() == reflect.String:
 		sort.Sort(keySortable{result, func(s any) string {
-			return strings.ToUpper(s.(string))
+			if s, ok := s.(string); ok {
+				return strings.ToUpper(s)
+			}
+			return ""
 		}})
 	}
 	return result
